@@ -3,7 +3,7 @@ import UsualProofs.C09.PoolMem
 import UsualProofs.C09.PoolWrap
 import UsualProofs.C09.MemPoolProofs
 import UsualProofs.C09.SlabHist
-import UsualProofs.C09.Stack3
+import UsualProofs.C09.TreeMem
 import UsualProofs.C09.TreeFull
 /-! Property theorems for C09 — allocators hand out aligned, disjoint, stable blocks and return
     all memory; size computations never wrap.
@@ -230,6 +230,13 @@ theorem pool_no_wrap {s : HState} {size : Nat} (h : Reach s) (ha : AddrOk s.pool
     segAlloc s.pool (nextSegSize s.pool (alignUp size s.pool.align)) < 2 ^ 64 :=
   alloc_no_wrap (reach_inv h).1 ha hmax
 
+/-- The address bound `pool_no_wrap` assumes is a property of the parent's answers: if every
+    region obtained from the parent (and, for `cx_new_pool_from_area` with a caller-owned buffer,
+    that buffer) ends below 2^62, then in every reachable state all regions the pool holds do. -/
+theorem pool_addr_ok {s : HState} (h : Reach s) (hob : ∀ r ∈ s.obtained, r.1 + r.2 ≤ 2 ^ 62)
+    (hfirst : ∀ g, s.pool.segs.getLast? = some g → g.base + g.size ≤ 2 ^ 62) : AddrOk s.pool :=
+  reach_addrOk h hob hfirst
+
 example : AddrOk exHist.pool := by
   intro g hg
   have : exHist.pool.segs.map (fun g => g.base + g.size) = [204208, 101120] := by decide
@@ -264,6 +271,21 @@ theorem pool_f5_old_counterexample :
 theorem pool_k2_old_counterexample (fuel : Nat) :
     growToOld fuel 2048 (2 ^ 31 + 8) < 2 ^ 31 + 8 :=
   growToOld_never fuel
+
+/-- F5 (second input), unchanged `pool_alloc` after `cx_new_pool_from_area(buf, size =
+    sizeof(struct CxPool))`: the first segment is empty, `nsize = 2·0 = 0`, and doubling 0 never
+    reaches any request — the loop does not end, whatever number of rounds it is given. -/
+theorem pool_f5_empty_area_old_counterexample (fuel size : Nat) (hs : 0 < size) :
+    growToOld fuel (2 * (0 : Nat) % 2 ^ 32) size < size := by
+  simp only [Nat.mul_zero, Nat.zero_mod]
+  rw [growToOld_zero fuel size hs]; exact hs
+
+/-- F5 (third input), unchanged `pool_realloc` of the last block at `p` with `len = 2^64 - 4096`:
+    the pointer sum `p + len` wraps to `p - 4096 ≤ seg_end`, so the test "fits" succeeds and
+    `seg_pos` is moved 4096 bytes *before* the block (below `seg_start`). -/
+theorem pool_f5_realloc_wrap_old_counterexample :
+    let p := 100096; let segStart := 100096; let segEnd := 101120; let len := 2 ^ 64 - 4096
+    (p + len) % 2 ^ 64 ≤ segEnd ∧ (p + len) % 2 ^ 64 < segStart := by decide
 
 /-! ## tree allocator (cx_new_tree) -/
 
@@ -348,6 +370,10 @@ theorem tree_no_wrap (len : Nat) (hl : len < 2 ^ 64) :
   · right; exact ⟨rfl, by omega⟩
 
 example : treeReq (2 ^ 64 - 8) = none := by decide
+
+/-- F20, unchanged `tree_alloc(tree, (size_t)-8)`: `TREE_HDR + len` wraps to 8, the parent is asked
+    for 8 bytes, and `list_init` then writes the 16-byte header into them. -/
+theorem tree_f20_old_counterexample : (treeHdr + (2 ^ 64 - 8)) % 2 ^ 64 = 8 ∧ 8 < treeHdr := by decide
 
 /-! ## slab -/
 
@@ -480,6 +506,14 @@ theorem slab_free_contents {A : Nat} {s : Slab} {live : List Nat} {ob : List (Na
     (∀ p ∈ s.freelist, ∀ i, listSize ≤ i → i < s.finalSize → (slabFreeM junk s m obj).2 (p + i) = m (p + i)) :=
   ⟨rfl, slabFreeM_frame junk m (sreach_inv h).1 ho⟩
 
+/-- F21, unchanged `grow()` for `slab_create(obj_size = 100 000 000)`: `count * final_size` is
+    computed in 32-bit `unsigned`, so the fragment asked from the parent (705 032 704 + 16 bytes) is
+    far smaller than the 50 objects of 100 000 000 bytes that are then linked into it. -/
+theorem slab_f21_old_counterexample :
+    let s : Slab := { hdr := 4096, finalSize := slabFinalSize 100000000 0, total := 0, freelist := [], frags := [] }
+    slabGrowCount s = 50 ∧ (slabGrowCount s * s.finalSize) % 2 ^ 32 = 705032704 ∧
+    705032704 + slabFragHdr < slabGrowCount s * s.finalSize := by decide
+
 /-- `slab_destroy` hands back to the parent exactly the regions obtained from it (the slab struct
     and every fragment), each exactly once. -/
 theorem slab_destroy_returns_once {A : Nat} {s : Slab} {live : List Nat} {ob : List (Nat × Nat)}
@@ -610,6 +644,62 @@ theorem mempool_f19_old_counterexample :
     keep all blocks disjoint. -/
 theorem alloc_stack_ok (P : Sys) (hP : Fresh P) : Fresh (PoolOn P) ∧ Fresh (TreeOn P) :=
   ⟨fresh_poolOn hP, fresh_treeOn hP⟩
+
+/-- A layer that puts a fixed header of `H` bytes in front of every block and pads the payload
+    (`pad n ≥ n`) — the talloc-backed cx (`H = THSIZE = 88`, `pad = ALIGN`), `cx_nofail_ops`
+    (`H = 0`, `pad = id`) — also preserves the contract, so "pool in tree in talloc-backed cx" is
+    covered: `PoolOn (TreeOn (HdrOn Base 88 (alignUp · 8)))`. -/
+theorem hdr_layer_ok (P : Sys) (hP : Fresh P) (H : Nat) (pad : Nat → Nat) (hpad : ∀ n, n ≤ pad n) :
+    Fresh (HdrOn P H pad) :=
+  fresh_hdrOn hP H pad hpad
+
+example : Fresh (PoolOn (TreeOn (HdrOn Bump tallocHdr (fun n => alignUp n 8)))) :=
+  fresh_poolOn (fresh_treeOn (fresh_hdrOn fresh_bump _ _ (fun _ => alignUp_ge (by decide))))
+
+/-- Where the blocks of the upper layers lie: a tree block starts exactly 16 bytes into — and ends
+    with — a block obtained from the parent and inherits its alignment for every alignment
+    dividing 16; a header-layer block starts `H` bytes into its parent block; and, composing
+    (`pool_on_any_parent`), every block of a pool in a tree in a talloc-backed cx over any base `B`
+    lies inside a block obtained from `B`. -/
+theorem stack_block_inside {B : Sys} (hB : Fresh B) {H : Nat} {pad : Nat → Nat} (hpad : ∀ n, n ≤ pad n) :
+    (∀ {s : (TreeOn B).σ}, (TreeOn B).WF s → ∀ b ∈ (TreeOn B).live s, ∃ r ∈ B.live s.2,
+        b.ptr = r.ptr + treeHdr ∧ b.ptr + b.len = r.ptr + r.len ∧
+        ∀ A, 16 % A = 0 → r.ptr % A = 0 → b.ptr % A = 0) ∧
+    (∀ {s : (HdrOn B H pad).σ}, (HdrOn B H pad).WF s → ∀ b ∈ (HdrOn B H pad).live s, ∃ r ∈ B.live s.2,
+        b.ptr = r.ptr + H ∧ b.ptr + b.len ≤ r.ptr + r.len) ∧
+    (∀ {s : (PoolOn (TreeOn (HdrOn B H pad))).σ}, (PoolOn (TreeOn (HdrOn B H pad))).WF s →
+        ∀ b ∈ (PoolOn (TreeOn (HdrOn B H pad))).live s, ∃ q ∈ B.live s.2.2.2,
+          q.ptr ≤ b.ptr ∧ b.ptr + b.len ≤ q.ptr + q.len) :=
+  ⟨fun hwf => treeOn_block_inside hB hwf, fun hwf => hdrOn_block_inside hB hwf,
+   fun hwf => stack3_inside hB hpad hwf⟩
+
+/-- Contents of tree blocks, on any parent satisfying the contract.  The tree code stores list
+    pointers only into the 16-byte item headers of the tree it operates on and into that tree's
+    `struct CxTree` (`treeTouch` lists all of these, plus the header of an item just obtained —
+    which is fresh memory); none of these bytes belongs to the payload of any block of the forest,
+    so whatever is stored (`junk`), every block keeps all its bytes. -/
+theorem tree_contents_stable_ok {P : Sys} (hP : Fresh P) {s : (TreeOn P).σ} (hwf : (TreeOn P).WF s)
+    {id : Nat} {n : TNode} (hf : s.1.find id = some n) (extra : List Nat)
+    (hextra : ∀ a ∈ extra, ∀ r ∈ P.live s.2, a + treeHdr ≤ r.ptr ∨ r.ptr + r.len ≤ a)
+    (junk m : Mem) :
+    ∀ b ∈ (TreeOn P).live s, ∀ i, i < b.len →
+      memStore junk m (treeTouch n extra) (b.ptr + i) = m (b.ptr + i) :=
+  tree_contents_stable hP hwf hf extra hextra junk m
+
+/-- `tree_realloc` preserves the first `min(old, new)` bytes: the parent's `realloc` of the item
+    copies `min(sz, 16+len)` bytes (its contract, `hparent`), and the list pointers the tree then
+    stores (`touch`, all outside the new payload) do not disturb them. -/
+theorem tree_realloc_preserves_ok {a sz a' len : Nat} (hsz : treeHdr ≤ sz) (junk m mP : Mem)
+    (touch : List (Nat × Nat))
+    (hparent : ∀ i, i < min sz (treeHdr + len) → mP (a' + i) = m (a + i))
+    (houtside : ∀ i, i < len → ∀ r ∈ touch, inRange r.1 r.2 (a' + treeHdr + i) = false) :
+    ∀ i, i < min (sz - treeHdr) len →
+      memStore junk mP touch (a' + treeHdr + i) = m (a + treeHdr + i) :=
+  tree_realloc_preserves hsz junk m mP touch hparent houtside
+
+example : (memStore (fun _ => 7) (fun x => UInt8.ofNat x) (treeTouch (.mk 1 1000 [(2000, 116)] []) [3000]) 2016 = UInt8.ofNat 2016)
+    ∧ (memStore (fun _ => 7) (fun x => UInt8.ofNat x) (treeTouch (.mk 1 1000 [(2000, 116)] []) [3000]) 2008 = 7) := by
+  constructor <;> decide
 
 /-- a concrete allocator satisfying the contract (bump allocator), and a stack of depth 4 on it -/
 example : Fresh Bump ∧ Fresh (PoolOn (PoolOn (TreeOn (TreeOn Bump)))) :=
